@@ -286,6 +286,20 @@ REPAIR_CHG = dict(region='repair_chg', file='cmdline/check.c', begin="/* reproce
                   prologue='\tunsigned j;\n\tif (1) { /* the region text starts with the last statement and the closing brace of the parity compare block */')
 
 
+WRITEBACK = dict(region='writeback', file='cmdline/check.c', begin='/* now write recovered files */', end='/* if we are not checking, we just set the DAMAGED flag */', max_lines=110, expect_loops=3,
+                 brace_balance=-1,
+                 proto='static void region_writeback(struct snapraid_state *state, int fix, struct failed_struct *failed, unsigned failed_count, void **buffer, void **buffer_recov, struct snapraid_parity_handle **parity, unsigned diskmax, block_off_t i, int used_parity, int valid_parity, unsigned *error_p, unsigned *recovered_p, unsigned *unrecoverable_p, int *bailed)',
+                 prologue='\tunsigned j, l;\n\tint ret;\n\tchar esc_buffer[ESC_MAX];\n\tunsigned error = *error_p, recovered_error = *recovered_p, unrecoverable_error = *unrecoverable_p;\n\tif (1) { if (1) { /* the region text closes the two enclosing blocks of the stripe loop and opens the else branch of the outer one */',
+                 epilogue='\t}\n\tgoto out;\nbail:\n\t*bailed = 1;\nout:\n\t*error_p = error; *recovered_p = recovered_error; *unrecoverable_p = unrecoverable_error;\n\t(void)esc_buffer;')
+
+
+def writeback_obs():
+    return [Ob('check.writeback.region', 'harness/h_writeback.c', 'h_writeback', inject=[WRITEBACK], unwind=12, small_path=True, timeout=1200, mem=8, cost=10, replay=False, kind='bounded',
+               bound='at most 3 failed entries per stripe, 1..6 parity levels',
+               functions=['state_check_process: region "now write recovered files" (cmdline/check.c, extracted mechanically)'],
+               note='check and fix, every bad / out-of-date / excluded / unsynced combination per entry, every disk slot and file position, every write outcome, every readability / accessibility / exclusion per parity level; handle_write / parity_write by recording stub')]
+
+
 def check_obs(tier):
     K = 'harness/h_check.c'
     cf = lambda *f: [x + ' (cmdline/check.c)' for x in f]
@@ -597,7 +611,7 @@ def openmode_obs():
 
 
 def c12(tier, seed):
-    return openmode_obs() + [o for o in main_obs() if o.name in ('main.dispatch.region', 'main.diff_branch.region')]
+    return openmode_obs() + [o for o in main_obs() if o.name in ('main.dispatch.region', 'main.diff_branch.region')] + writeback_obs()
 
 
 def c11(tier, seed):
@@ -626,7 +640,7 @@ def c06(tier, seed):
 
 
 def c05(tier, seed):
-    return check_obs(tier) + import_obs() + search_obs()
+    return check_obs(tier) + import_obs() + search_obs() + writeback_obs()
 
 
 def import_obs():
